@@ -2,6 +2,7 @@ package checks
 
 import (
 	"math/rand"
+	"time"
 
 	"verifharness/internal/core"
 	"verifharness/internal/gen"
@@ -38,146 +39,194 @@ func amoRichCNF(r *rand.Rand, nv int) [][]int {
 	return clauses
 }
 
+// cliBase: the fields every cli case has.
+func cliBase(r *rand.Rand, kind string, n int, cons []gen.M) gen.M {
+	if cons == nil {
+		cons = []gen.M{}
+	}
+	for _, c := range cons {
+		if _, ok := c["weight"]; !ok {
+			c["weight"] = 0
+		}
+	}
+	return gen.M{"drv": "cli", "kind": kind, "sfx": kind, "st": "wellformed", "n": n, "cons": cons, "hasObj": false, "obj": gen.NoObj(), "top": 0,
+		"tokens": []string{}, "names": []string{}, "flags": []string{}, "missing": false, "text": "", "ext": "",
+		"cfg": gen.M{"layout": r.Intn(2), "layoutSeed": r.Intn(1 << 20)}, "ev": []gen.M{gen.Op("run")}}
+}
+
+func hasFlag(flags []string, f string) bool {
+	for _, x := range flags {
+		if x == f {
+			return true
+		}
+	}
+	return false
+}
+
+// cliFile: a well-formed file of the given suffix, shaped for the flags it will be run with.
+func cliFile(r *rand.Rand, sfx string, flags []string) gen.M {
+	switch sfx {
+	case "cnf":
+		n := 1 + r.Intn(6)
+		clauses := gen.RandCNF(r, n, r.Intn(4*n+1), 3, r.Intn(4) == 0)
+		if r.Intn(10) == 0 {
+			clauses = nil
+		}
+		if hasFlag(flags, "-mus") && r.Intn(3) > 0 { // mostly unsatisfiable files for the MUS flag
+			n, clauses = unsatBiasedCNF(r, 5)
+		}
+		if hasFlag(flags, "-cp") && !hasFlag(flags, "-mus") && !hasFlag(flags, "-count") && r.Intn(2) == 0 {
+			// pairwise at-most-one groups: what -cp rewrites into cardinality constraints
+			n = 5 + r.Intn(4)
+			clauses = amoRichCNF(r, n)
+		}
+		return cliBase(r, "cnf", n, gen.ClauseCtors(clauses))
+	case "opb":
+		n := 1 + r.Intn(5)
+		var cons []gen.M
+		for j := 0; j < r.Intn(5); j++ {
+			cons = append(cons, opbCons(r, n, 3))
+		}
+		if hasFlag(flags, "-count") && r.Intn(3) > 0 { // constraints that fix variables, several times
+			cons = nil
+			for j := 0; j < 2+r.Intn(4); j++ {
+				cons = append(cons, gen.Ctor("gteq", []int{gen.RandLit(r, n)}, []int{1 + r.Intn(2)}, 1))
+			}
+		}
+		c := cliBase(r, "opb", n, cons)
+		if r.Intn(3) > 0 {
+			c["hasObj"], c["obj"] = true, gen.RandObj(r, n, 0, 3)
+		}
+		return c
+	case "wcnf":
+		n := 1 + r.Intn(5)
+		var cons []gen.M
+		for j := 0; j < 1+r.Intn(5); j++ {
+			cons = append(cons, msCons(r, n, true))
+		}
+		w := wcnfCase(r, n, cons)
+		c := cliBase(r, "wcnf", w["n"].(int), cons)
+		c["top"] = w["top"]
+		return c
+	default: // bf
+		k := 1 + r.Intn(4)
+		names := gen.Names(k)
+		toks := gen.Tokens(r, gen.RandSyntaxTree(r, k, 1+r.Intn(7)), names, 1, 0.1)
+		c := cliBase(r, "bf", k, nil)
+		c["tokens"], c["names"] = toks, names
+		return c
+	}
+}
+
+// cliBad: a path that cannot be read, a file whose content is not of its kind, or a file with an
+// unknown suffix (whatever is in it).
+func cliBad(r *rand.Rand, sfx, st string) gen.M {
+	c := cliBase(r, "bad", 0, nil)
+	c["sfx"], c["st"], c["ext"] = sfx, st, "."+sfx
+	malformed := map[string][]string{
+		"cnf":  {"p cnf 2 1\n1 x 0\n", "p cnf 2 1\n1 2\n3 z", "p cnf two 1\n1 0\n"},
+		"opb":  {"* #variable= 2 #constraint= 1\n+1 x1 +1 y2 >= 1 ;\n", "* c\n+1 x1 >= ;\n"},
+		"wcnf": {"p wcnf 2 1 10\n3 1 x 0\n"},
+		"bf":   {"a & & b", "(a | b", "a -> ; b )"},
+		"txt":  {"hello\n", "1 2 0\n"},
+	}
+	switch st {
+	case "missing":
+		c["missing"] = true
+	case "malformed":
+		l := malformed[sfx]
+		c["text"] = l[r.Intn(len(l))]
+	default: // a well-formed DIMACS text behind a suffix the tool does not know
+		c["text"] = "p cnf 1 1\n1 0\n"
+	}
+	return c
+}
+
+// cliConfigured: one case for a (suffix, file state, flag set) configuration of CLI.tla.
+func cliConfigured(r *rand.Rand, sfx, st string, flags []string) gen.M {
+	var c gen.M
+	if st != "wellformed" || sfx == "txt" {
+		c = cliBad(r, sfx, st)
+	} else {
+		c = cliFile(r, sfx, flags)
+	}
+	c["flags"] = append([]string{}, flags...)
+	return c
+}
+
+var cliFlags = []string{"-verbose", "-certified", "-mus", "-count", "-cp"}
+
 func init() {
 	register(&core.Check{
 		ID:          "C19",
 		TraceModule: "CLITrace",
 		NeedCLI:     true,
 		Budget:      0,
+		Designs: []core.Design{
+			{Name: "cli-configurations", Module: "CLIGen", Cfg: "CLIGen.cfg", Workers: 2, XmxMB: 2000, Timeout: 5 * time.Minute,
+				ToCases: func(env *core.Env, emitted []core.Case) []core.Case {
+					var res []core.Case
+					for _, e := range emitted {
+						var flags []string
+						for _, f := range e["flags"].([]any) {
+							flags = append(flags, f.(string))
+						}
+						// more files for the configurations with the richest pipelines
+						sfx, st := e["sfx"].(string), e["st"].(string)
+						reps := 2
+						switch {
+						case st != "wellformed" || sfx == "txt":
+							reps = 1
+						case hasFlag(flags, "-mus"):
+							reps = 3
+						case hasFlag(flags, "-count") && sfx == "opb":
+							reps = 8
+						case hasFlag(flags, "-cp") && sfx == "cnf" && !hasFlag(flags, "-count"):
+							reps = 12
+						case sfx == "opb" || sfx == "wcnf":
+							reps = 3
+						}
+						for k := 0; k < reps*env.Pick(1, 6); k++ {
+							res = append(res, cliConfigured(env.Rand, sfx, st, flags))
+						}
+					}
+					return res
+				}},
+		},
 		Cases: func(env *core.Env) []core.Case {
 			r := env.Rand
 			var res []core.Case
-			base := func(kind string, n int, cons []gen.M) gen.M {
-				if cons == nil {
-					cons = []gen.M{}
+			for i := 0; i < env.Pick(600, 8000); i++ {
+				sfx := []string{"cnf", "cnf", "cnf", "cnf", "opb", "opb", "wcnf", "wcnf", "bf", "txt"}[r.Intn(10)]
+				st := "wellformed"
+				if r.Intn(10) == 0 {
+					st = []string{"missing", "malformed"}[r.Intn(2)]
 				}
-				for _, c := range cons {
-					if _, ok := c["weight"]; !ok {
-						c["weight"] = 0
-					}
-				}
-				return gen.M{"drv": "cli", "kind": kind, "mode": "solve", "n": n, "cons": cons, "hasObj": false, "obj": gen.NoObj(), "top": 0,
-					"tokens": []string{}, "names": []string{}, "flags": []string{}, "missing": false, "text": "", "ext": "",
-					"cfg": gen.M{"layout": r.Intn(2), "layoutSeed": r.Intn(1 << 20)}, "ev": []gen.M{gen.Op("run")}}
-			}
-			for i := 0; i < env.Pick(700, 8000); i++ {
-				switch r.Intn(10) {
-				case 0, 1, 2, 3: // .cnf with every flag
-					n := 1 + r.Intn(6)
-					clauses := gen.RandCNF(r, n, r.Intn(4*n+1), 3, r.Intn(4) == 0)
-					if r.Intn(10) == 0 {
-						clauses = nil
-					}
-					amoRich := r.Intn(3) == 0
-					if amoRich { // pairwise at-most-one groups: what -cp rewrites into cardinality constraints
-						n = 5 + r.Intn(4)
-						clauses = amoRichCNF(r, n)
-					}
-					c := base("cnf", n, gen.ClauseCtors(clauses))
-					sel := r.Intn(7)
-					if amoRich && r.Intn(4) > 0 {
-						sel = 3
-					}
-					switch sel {
-					case 0:
-						c["flags"], c["mode"] = []string{"-count"}, "count"
-					case 1:
-						c["flags"], c["mode"] = []string{"-certified"}, "cert"
-					case 2:
-						c["flags"], c["mode"] = []string{"-mus"}, "mus"
-					case 3:
-						c["flags"] = []string{"-cp"}
-					case 4:
-						c["flags"] = []string{"-verbose"}
-					}
-					res = append(res, c)
-				case 4, 5: // .opb
-					n := 1 + r.Intn(5)
-					var cons []gen.M
-					for j := 0; j < r.Intn(5); j++ {
-						cons = append(cons, opbCons(r, n, 3))
-					}
-					c := base("opb", n, cons)
-					if r.Intn(3) > 0 {
-						c["hasObj"], c["obj"] = true, gen.RandObj(r, n, 0, 3)
-					}
-					if r.Intn(4) == 0 {
-						c["flags"] = []string{"-cp"}
-					} else if r.Intn(5) < 2 { // counting the models of an OPB file (the objective plays no role)
-						c["flags"], c["mode"] = []string{"-count"}, "count"
-						if r.Intn(3) > 0 { // constraints that fix variables, several times
-							cons = nil
-							for j := 0; j < 2+r.Intn(4); j++ {
-								l := gen.RandLit(r, n)
-								cons = append(cons, gen.Ctor("gteq", []int{l}, []int{1 + r.Intn(2)}, 1))
-							}
-							for _, k := range cons {
-								k["weight"] = 0
-							}
-							c["cons"] = cons
+				var flags []string
+				switch r.Intn(4) {
+				case 0: // no flag
+				case 1, 2: // one flag
+					flags = []string{cliFlags[r.Intn(len(cliFlags))]}
+				default: // a combination
+					for _, f := range cliFlags {
+						if r.Intn(3) == 0 {
+							flags = append(flags, f)
 						}
 					}
-					res = append(res, c)
-				case 6, 7: // .wcnf
-					n := 1 + r.Intn(5)
-					var cons []gen.M
-					for j := 0; j < 1+r.Intn(5); j++ {
-						cons = append(cons, msCons(r, n, true))
-					}
-					w := wcnfCase(r, n, cons)
-					c := base("wcnf", w["n"].(int), cons)
-					c["top"] = w["top"]
-					res = append(res, c)
-				case 8: // .bf
-					k := 1 + r.Intn(4)
-					names := gen.Names(k)
-					toks := gen.Tokens(r, gen.RandSyntaxTree(r, k, 1+r.Intn(7)), names, 1, 0.1)
-					c := base("bf", k, nil)
-					c["tokens"], c["names"] = toks, names
-					res = append(res, c)
-				default: // error cases
-					c := base("bad", 0, nil)
-					exts := []string{".cnf", ".opb", ".wcnf", ".bf", ".txt"}
-					switch r.Intn(8) {
-					case 0:
-						c["missing"], c["ext"] = true, exts[r.Intn(len(exts))]
-					case 1:
-						c["text"], c["ext"] = "p cnf 1 1\n1 0\n", ".txt"
-					case 2:
-						c["text"], c["ext"] = "p cnf 2 1\n1 x 0\n", ".cnf"
-					case 3:
-						c["text"], c["ext"] = "p cnf 2 1\n1 2\n3 z", ".cnf"
-					case 4:
-						c["text"], c["ext"] = "* #variable= 2 #constraint= 1\n+1 x1 +1 y2 >= 1 ;\n", ".opb"
-					case 5:
-						c["text"], c["ext"] = "* c\n+1 x1 >= ;\n", ".opb"
-					case 6:
-						c["text"], c["ext"] = "p wcnf 2 1 10\n3 1 x 0\n", ".wcnf"
-					default:
-						c["text"], c["ext"] = "a & & b", ".bf"
-					}
-					// every mode of the tool has its own way of opening and reading the file
-					if fl := []string{"", "-count", "-certified", "-mus", "-cp", "-verbose"}[r.Intn(6)]; fl != "" {
-						c["flags"] = []string{fl}
-						cov := map[string]string{"-count": "count", "-certified": "cert", "-mus": "mus"}
-						if m, ok := cov[fl]; ok {
-							c["errmode"] = m
-						}
-					}
-					res = append(res, c)
 				}
+				res = append(res, cliConfigured(r, sfx, st, flags))
 			}
 			return res
 		},
 		Cover: func(t core.Case, cov map[string]int) bool {
 			cov["kind."+s(t, "kind")]++
-			if s(t, "kind") == "bad" {
-				cov["bad.mode."+s(t, "errmode")]++
+			cov["state."+s(t, "st")]++
+			fl, _ := t["flags"].([]any)
+			for _, f := range fl {
+				cov["flag."+f.(string)]++
 			}
-			cov["mode."+s(t, "mode")]++
-			if fl, _ := t["flags"].([]any); len(fl) > 0 {
-				f, _ := fl[0].(string)
-				cov["flag."+f]++
+			if len(fl) >= 2 {
+				cov["flags.combined"]++
 			}
 			nt := false
 			for _, e := range evs(t) {
@@ -185,6 +234,12 @@ func init() {
 					cov["answer."+s(e, "s")]++
 					if b(e, "hasMus") {
 						cov["mus.printed"]++
+					}
+					if n(e, "count") >= 0 && s(t, "kind") != "bad" {
+						cov["count.printed"]++
+					}
+					if l, _ := e["cert"].([]any); len(l) > 0 {
+						cov["cert.lines"]++
 					}
 					if l, _ := e["o"].([]any); len(l) >= 2 {
 						cov["o.several"]++
@@ -194,7 +249,7 @@ func init() {
 			}
 			return nt
 		},
-		Rule:    "cases: generated .cnf (n<=6; flags none, -count, -certified, -mus, -cp, -verbose), .opb (n<=5, with / without objective, -cp), .wcnf and .bf files with seeded layout, plus unreadable path / unknown suffix / malformed file of each kind under each flag; the executable is built from /repo and run once per case; its output is tokenised into answer lines; non-trivial = at least two constraints in the file",
-		Require: []string{"kind.cnf", "kind.opb", "kind.wcnf", "kind.bf", "kind.bad", "mode.count", "mode.cert", "mode.mus", "flag.-cp", "flag.-verbose", "answer.SATISFIABLE", "answer.UNSATISFIABLE", "answer.OPTIMUM FOUND", "mus.printed", "bad.mode.", "bad.mode.count", "bad.mode.cert", "bad.mode.mus"},
+		Rule:    "cases: every (suffix, file state, flag set) configuration enumerated by CLIGen.tla (5 x 3 x 32 = 480), 1..12 generated files each in the quick tier (6 times as many in the thorough tier), plus seeded random configurations: .cnf (n<=6, at-most-one-rich under -cp, mostly unsatisfiable under -mus), .opb (n<=5, with / without objective), .wcnf, .bf files with seeded layout, missing paths, malformed files of each kind, unknown suffix; the executable is built from /repo and run once per case; its output is tokenised into answer lines and judged by CLI!Expect of the configuration; non-trivial = at least two constraints in the file",
+		Require: []string{"kind.cnf", "kind.opb", "kind.wcnf", "kind.bf", "kind.bad", "state.missing", "state.malformed", "flag.-cp", "flag.-verbose", "flag.-count", "flag.-certified", "flag.-mus", "flags.combined", "answer.SATISFIABLE", "answer.UNSATISFIABLE", "answer.OPTIMUM FOUND", "mus.printed", "count.printed", "cert.lines"},
 	})
 }
